@@ -21,12 +21,18 @@ CHECKS = {
  "C11": ("reference-model monitor over every cell of small nsides, boundary classes of 40 hostile nsides, and hostile positions (runtime oracle)",
          "ring::center/vertices/sph_coo/hash/hash_with_dxdy for every cell of nside 1..40 (1..300 thorough), ring-boundary classes of primes / 2^k+-1 / huge nsides up to 2^29, and the hostile position set x 41 nsides are judged against the integer RING decoder and reference projection: containment, ordering, ring sizes, round trips, rejections.",
          "trusted: refm.rs ring_decode + projection; containment tolerance 1e-14 plane units", "DESIGN.md §4 C11"),
+ "C14": ("model-based monitor: expected border walk from a reference bit-interleave, expected external ring from neighbours of the deep border cells (runtime oracle)",
+         "internal_edge(_sorted), internal_corner, internal_edge_part, external_edge(_sorted|_struct) and their free-function wrappers are compared, for every cell of small depths with delta<=4/6 and for all seam classes of every deeper depth (delta up to depth+delta=29), with sets/walks built independently; duplicates, order, labels and counts are all judged.",
+         "trusted: refm.rs interleave; Layer::neighbours (judged geometrically by C04) + 1% geometric spot checks", "DESIGN.md §4 C14"),
  "C17": ("reference-model monitor (independent Calabretta-Roukema formulae) + round-trip monitors, both directions",
          "proj/unproj/base_cell_from_proj_coo outputs for millions of generated sphere positions and plane points (facet boundaries, |y| in {1,2}, poles +-ulps, negative and >2pi longitudes) are judged against an independent projection model, round-trips and range/sign rules; out-of-range arguments must panic.",
          "trusted: refm.rs reference projection (cross-checked with mpmath); a facet-boundary point has two admissible images, either is accepted", "DESIGN.md §4 C17"),
  "C18": ("differential monitor against a bit-loop specification, per implementation class and per build (LUT, BMI2, debug); exhaustive on small classes",
          "Every z-order implementation reachable (get_zoc per depth in the LUT build and in the +bmi2 build, public LARGE_ZOC_* statics) is compared with a bit-loop interleave: all pairs for depth<=8 (and all 2^32 pairs of depth 16 in thorough), byte-lane exhaustive + random deeper; uniq encodings inverse/monotone/rejecting depth>29. Exhaustive where stated, sampled elsewhere.",
          "trusted: refm.rs bit loop; the CPU executing pdep/pext correctly", "DESIGN.md §4 C18"),
+ "C19": ("invariant monitor over generated positions (quadrants of all cell classes, missing-neighbour cells, seams, hostile positions)",
+         "Every bilinear_interpolation result for positions in the four quadrants / centre / quadrant boundaries of class-sampled cells of every depth (all 24 missing-neighbour cells per depth) and for the hostile position set is judged: weights >= 0 and summing to 1, cells = containing cell or its neighbours, centre weight, weighted mean of centres (reference offsets), zero-weight entry next to three-cell points.",
+         "trusted: refm.rs containment/offsets; Layer::neighbours (C04)", "DESIGN.md §4 C19"),
  "C02": ("exact differential monitor across the 30 depths (runtime oracle)",
          "For every generated position the 30 hashes are compared bit for bit (consecutive depths and against depth 29). Exact oracle, sampled inputs concentrated on cell borders.",
          "trusted: none beyond integer comparison; inputs are sampled", "DESIGN.md §4 C02"),
